@@ -1916,6 +1916,8 @@ def run_c03(ctx):
                detail="num_massive_edges = %s" % nm.key())
         ev = res.fields["external_vertices"]
         ctx.ob("C03-a", "external_vertices is the input's externals", isinstance(ev, Opaque) and ev.name == "externals", fg.path, "externals-copy")
+        from .common import builder_forwards_graph
+        builder_forwards_graph(ctx, ctx.roles, "C03-a", fg)
     guarded_clause(ctx, "C03-a", fg.path, "from-graph", a)
 
     def b():
@@ -1959,6 +1961,8 @@ def graph_dod_clause(ctx, RID, topology=False):
                detail="num_massive_edges = %s" % nm.key())
         ev = res.fields["external_vertices"]
         ctx.ob(RID, "external_vertices is the input's externals", isinstance(ev, Opaque) and ev.name == "externals", fg.path, "externals-copy")
+        from .common import builder_forwards_graph
+        builder_forwards_graph(ctx, ctx.roles, RID, fg)
 
 
 def normalisation_clause(ctx, RID):
@@ -1991,6 +1995,25 @@ def gdod_clause(ctx, RID, tb):
         ctx.ob(RID, "stored flag is spanning(edges of i)", isinstance(sp_, Cond) and sp_.key() == "spanning(%s)" % cls, tb.path, "stored-spanning-flag")
         dim = r.fields["dimension"]
         ctx.ob(RID, "the table stores the dimension argument", scalar_of(dim, "dimension") == Expr.symbol("D"), tb.path, "stored-dimension")
+        # what is written in the subset loop is what the finished table holds: the conversion of the working table (`to_entry`, a map, a
+        # clamp "for rounding") changes no field
+        tbl = r.fields["table"]
+        fin = tbl.at("i") if isinstance(tbl, Arr) else None
+        ok_f, det_f = False, "the finished table is not a sequence of entries"
+        if isinstance(fin, Struct):
+            diffs = []
+            for fld_ in ("generalized_dod", "loop_number"):
+                if fld_ not in fin.fields or scalar_of(fin.fields[fld_], fld_) != scalar_of(ent.fields[fld_], fld_):
+                    diffs.append(fld_)
+            fs_ = fin.fields.get("mass_momentum_spanning")
+            if not (isinstance(fs_, Cond) and isinstance(sp_, Cond) and fs_.key() == sp_.key()):
+                diffs.append("mass_momentum_spanning")
+            jf = fin.fields.get("j_function")
+            if not (isinstance(jf, Num) and jf.expr == Expr.atom(("call", "J", ("ix", "i")))):
+                diffs.append("j_function")
+            ok_f, det_f = not diffs, "fields that differ between the entry written in the subset loop and the finished table: %s" % diffs
+        ctx.ob(RID, "the finished table holds, entry by entry, exactly what the subset loop and the J recursion wrote", ok_f, tb.path, "table-conversion",
+               detail=det_f)
 
 
 def run_c03_tail(ctx, f):
